@@ -54,6 +54,7 @@ func (m *Mutex) Unlock() {
 	}
 	simrt.HBRelease(&m.vc)
 	m.held = false
+	simrt.Yield(simrt.OpLock) // protection ends here: let others in before the caller's next plain access
 }
 
 // RWMutex is a simulated sync.RWMutex.
@@ -98,6 +99,7 @@ func (m *RWMutex) Unlock() {
 	}
 	simrt.HBRelease(&m.vc)
 	m.writer = false
+	simrt.Yield(simrt.OpLock)
 }
 
 func (m *RWMutex) RLock() {
@@ -136,6 +138,7 @@ func (m *RWMutex) RUnlock() {
 	// readers also publish (over-approximation: reader->writer edges exist in Go too)
 	simrt.HBRelease(&m.vc)
 	m.readers--
+	simrt.Yield(simrt.OpLock)
 }
 
 type rlocker RWMutex
@@ -373,9 +376,23 @@ func (m *Map) Clear() {
 type Pool struct {
 	New   func() any
 	items []any
+	run   uint64
+}
+
+// A pool must not carry objects from one simulated run into the next (a
+// package-level pool in the code under test would make runs depend on their
+// predecessors); sync.Pool may drop its contents at any time, so emptying it
+// at run boundaries is legal behaviour.
+func (p *Pool) fresh() {
+	if r := simrt.RunSeq(); p.run != r {
+		p.items = nil
+		p.run = r
+	}
 }
 
 func (p *Pool) Get() any {
+	p.fresh()
+	simrt.Yield(simrt.OpLock)
 	if n := len(p.items); n > 0 {
 		x := p.items[n-1]
 		p.items = p.items[:n-1]
@@ -387,4 +404,8 @@ func (p *Pool) Get() any {
 	return nil
 }
 
-func (p *Pool) Put(x any) { p.items = append(p.items, x) }
+func (p *Pool) Put(x any) {
+	p.fresh()
+	simrt.Yield(simrt.OpLock)
+	p.items = append(p.items, x)
+}
